@@ -18,14 +18,19 @@ RULE = ("random Linear layers (1-5 inputs, 1-3 units, every subset of lower/uppe
         "kernel, then the layer is called on probe points (moves along constrained inputs, +d steps of both inputs "
         "of a monotonic dominance pair, full-range sweeps of both inputs of a range dominance pair); the Coq model "
         "projects the raw kernel itself and evaluates Linear.call; monotonicity, both dominance effects and the "
-        "weighted-average range are evaluated on the real outputs. Non-trivial = the layer has >= 2 inputs or a "
+        "weighted-average range are evaluated on the real outputs. ~10% of the layers of both kinds are built in "
+        "float32 - the layers' DEFAULT dtype - (class suffix _f32): plain layers with the same dyadic kernels and "
+        "points (every product and sum is exact in float32), constrained layers with the raw kernel scaled by 1/8 "
+        "and without the 'far' class; outputs compared with tolerance 1e-5. Non-trivial = the layer has >= 2 inputs or a "
         "bound that actually clips a point; distinct = distinct (config, kernel, points).")
 TRUSTED = ["model: Model/LinearEval.v + Model/LinearLayer.v (hand-written from linear_layer.py Linear.call/build), "
            "Model/LinearProject.v (linear_lib.project, property C06); square root of the order-2 norm is an oracle "
            "in the theorems and a truncated Newton iteration when the model is executed; "
-           "tie: Linear layer built in float64 with assigned kernel/bias (constrained cases: after "
+           "tie: Linear layer built in float64 (tolerance 1e-9) or float32 (tolerance 1e-5, passed to Coq with the "
+           "case: CTol) with assigned kernel/bias (constrained cases: after "
            "layer.kernel.assign(layer.kernel.constraint(layer.kernel))), constrained kernel and outputs compared in Coq"]
-LIMITS = ["float rounding of the matmul/reduce_sum and of the projection is outside the model (tolerance 1e-9)",
+LIMITS = ["float rounding of the matmul/reduce_sum and of the projection is outside the model (tolerance 1e-9; "
+          "float32 layers: 1e-5 * max(1, |v|) in the Coq comparison and in the predicates)",
           "weighted average: a numerically-zero projected column (L1 norm < 1e-8) is outside the guarantee "
           "(guard of C20_projected_weighted_average, refuted witness C20_projected_weighted_average_zero_refuted, "
           "known finding D32); such columns are generated and compared with the model but not held to the range",
@@ -108,11 +113,46 @@ def gen_descs(ctx):
       for r in p:
         r[i] += d
       pts.append(p)
-    out.append(dict(n=n, units=units, monos=monos, lo=lo, hi=hi, K=K, bias=bias, pts=pts, feasible=feasible,
-                    monos_scalar=monos_scalar, lo_form=rng.choice(BOUND_FORMS), hi_form=rng.choice(BOUND_FORMS)))
+    d = dict(n=n, units=units, monos=monos, lo=lo, hi=hi, K=K, bias=bias, pts=pts, feasible=feasible,
+             monos_scalar=monos_scalar, lo_form=rng.choice(BOUND_FORMS), hi_form=rng.choice(BOUND_FORMS))
+    if rng.random() < 0.1:
+      d["dtype"] = "float32"   # kernel, bias and points are multiples of 1/8 below 16: exact, and so is every product
+      if not feasible:
+        d["K"] = [[fine(rng, v) for v in row] for row in K]
+    out.append(d)
   for _ in range(ctx.n(120, 2000)):
-    out.append(gen_constrained(rng))
+    d = gen_constrained(rng)
+    if rng.random() < 0.1:
+      # float32: raw kernel on the 1/64 grid with |w| <= 1 (no 'far' class), so that the float32 rounding of the
+      # projected (no longer dyadic) weights times |x| <= 11 stays well below the tolerance
+      if d["wclass"] == "far":
+        d["W"] = [[v / 8.0 for v in row] for row in d["W"]]
+      d["W"] = [[v / 8.0 for v in row] for row in d["W"]]
+      d["dtype"] = "float32"
+    out.append(d)
   return out
+
+
+F32_TOL = 1e-5
+
+
+def fine(rng, v):
+  """float32 cases only: moves a value by a few 2^-12 (still exact in float32, but not in float16 / bfloat16: a lossy
+  cast on the float32 path is invisible on multiples of 1/8)."""
+  return v + rng.choice([0, 0, 1, -1, 3, -5]) * 2.0 ** -12
+
+
+
+def is_f32(d):
+  return d.get("dtype") == "float32"
+
+
+def np_dtype(d):
+  return np.float32 if is_f32(d) else np.float64
+
+
+def wrap_tol(d, term):
+  return "CTol %s (%s)" % (cq(F32_TOL), term) if is_f32(d) else term
 
 
 def rand_dag(rng, nodes, max_pairs):
@@ -268,25 +308,31 @@ def eval_constrained(tf, tfl, d):
       range_dominances=[tuple(p) for p in d["rdom"]] or None,
       input_min=bounds_arg(d["lo"], d.get("lo_form", "list"), any_lo),
       input_max=bounds_arg(d["hi"], d.get("hi_form", "list"), any_hi),
-      use_bias=d["bias"] is not None, normalization_order=d["norm"], dtype="float64")
+      use_bias=d["bias"] is not None, normalization_order=d["norm"], dtype="float32" if is_f32(d) else "float64")
+  dt = np_dtype(d)
+  rel = F32_TOL if is_f32(d) else 1e-9
   layer.build((None, n) if units == 1 else (None, units, n))
-  layer.kernel.assign(np.array(d["W"], dtype=np.float64))
+  layer.kernel.assign(np.array(d["W"], dtype=dt))
   if layer.kernel.constraint is not None:
     layer.kernel.assign(layer.kernel.constraint(layer.kernel))
   if d["bias"] is not None:
-    layer.bias.assign(np.float64(d["bias"][0]) if units == 1 else np.array(d["bias"], dtype=np.float64))
+    layer.bias.assign(dt(d["bias"][0]) if units == 1 else np.array(d["bias"], dtype=dt))
   kern = [[float(v) for v in row] for row in layer.kernel.numpy()]
-  x = np.array(d["pts"], dtype=np.float64)
+  x = np.array(d["pts"], dtype=dt)
   if units == 1:
     x = x[:, 0, :]
-  y = layer(tf.constant(x)).numpy()
+  yt = layer(tf.constant(x))
+  y = yt.numpy()
   outs = [[float(v) for v in row] for row in y]
+  if layer.kernel.dtype.base_dtype.name != np.dtype(dt).name or yt.dtype.name != np.dtype(dt).name:
+    return Case(d, coq=None, pred_fail="constrained layer built with dtype=%s has a %s kernel and returns %s" % (
+        np.dtype(dt).name, layer.kernel.dtype.base_dtype.name, yt.dtype.name), nontrivial=True, klass="proj_dtype")
   R = np.array(kern)
   if not (np.all(np.isfinite(R)) and np.all(np.isfinite(y))):
     return Case(d, coq=None, pred_fail="constrained layer: non-finite kernel or output after the kernel constraint",
                 nontrivial=True, klass="proj_nonfinite", info={"impl_constrained_kernel": repr(kern)})
   scale = max(1.0, float(np.abs(y).max()))
-  eps = 1e-9 * scale
+  eps = rel * scale
   fail = None
   pts = d["pts"]
   lo, hi = d["lo"], d["hi"]
@@ -335,12 +381,12 @@ def eval_constrained(tf, tfl, d):
   cfg = "(mkLin %s %s %s %s %s %s)" % (
       czl(d["monos"]), cnatpairs(d["mdom"]), cnatpairs(d["rdom"]),
       clist([copt(v) for v in d["lo"]]), clist([copt(v) for v in d["hi"]]), cnat(d["norm"] or 0))
-  coq = "mkP %s %s %s %s %s %s %s" % (cfg, cnat(units), cqm(d["W"]), copt(d["bias"], cql),
-                                      clist([cqm(p) for p in pts]), cqm(kern), cqm(outs))
-  klass = "proj_u%d_%s%s%s%s_%s%s%s" % (units, "m" if d["mdom"] else "", "r" if d["rdom"] else "",
-                                        "n%d" % d["norm"] if d["norm"] else "", "_wavg" if d["wavg"] else "",
-                                        "+".join(sorted(checked)) or "none", "_zerocol" if zero_col else "",
-                                        form_class(d))
+  coq = wrap_tol(d, "mkP %s %s %s %s %s %s %s" % (cfg, cnat(units), cqm(d["W"]), copt(d["bias"], cql),
+                                                 clist([cqm(p) for p in pts]), cqm(kern), cqm(outs)))
+  klass = "proj_u%d_%s%s%s%s_%s%s%s%s" % (units, "m" if d["mdom"] else "", "r" if d["rdom"] else "",
+                                          "n%d" % d["norm"] if d["norm"] else "", "_wavg" if d["wavg"] else "",
+                                          "+".join(sorted(checked)) or "none", "_zerocol" if zero_col else "",
+                                          form_class(d), "_f32" if is_f32(d) else "")
   return Case(d, coq=coq, pred_fail=fail, nontrivial=True, klass=klass,
               info={"impl_outputs": outs, "impl_constrained_kernel": kern})
 
@@ -369,34 +415,41 @@ def eval_one(tf, tfl, d):
       num_input_dims=n, units=units, monotonicities=monos_arg(d),
       input_min=bounds_arg(d["lo"], d.get("lo_form", "list"), any_lo),
       input_max=bounds_arg(d["hi"], d.get("hi_form", "list"), any_hi),
-      use_bias=d["bias"] is not None, dtype="float64")
+      use_bias=d["bias"] is not None, dtype="float32" if is_f32(d) else "float64")
+  dt = np_dtype(d)
+  rel = F32_TOL if is_f32(d) else 1e-9
   layer.build((None, n) if units == 1 else (None, units, n))
-  layer.kernel.assign(np.array(d["K"], dtype=np.float64))
+  layer.kernel.assign(np.array(d["K"], dtype=dt))
   if d["bias"] is not None:
-    layer.bias.assign(np.float64(d["bias"][0]) if units == 1 else np.array(d["bias"], dtype=np.float64))
-  x = np.array(d["pts"], dtype=np.float64)  # (batch, units, n)
+    layer.bias.assign(dt(d["bias"][0]) if units == 1 else np.array(d["bias"], dtype=dt))
+  x = np.array(d["pts"], dtype=dt)  # (batch, units, n)
   if units == 1:
     x = x[:, 0, :]
-  y = layer(tf.constant(x)).numpy()  # (batch, units)
+  yt = layer(tf.constant(x))
+  y = yt.numpy()  # (batch, units)
   outs = [[float(v) for v in row] for row in y]
   # property predicate on the implementation: monotone along the moved input
   fail = None
+  if layer.kernel.dtype.base_dtype.name != np.dtype(dt).name or yt.dtype.name != np.dtype(dt).name:
+    fail = "layer built with dtype=%s has a %s kernel and returns %s" % (
+        np.dtype(dt).name, layer.kernel.dtype.base_dtype.name, yt.dtype.name)
   if d["feasible"]:
     base = d["pts"][0]
     for p, o in zip(d["pts"][1:], outs[1:]):
       i = [k for k in range(n) if p[0][k] != base[0][k]][0]
       for u in range(units):
         diff = o[u] - outs[0][u]
-        if d["monos"][i] == 1 and diff < -1e-9 or d["monos"][i] == -1 and diff > 1e-9:
+        eps = rel * max(1.0, abs(o[u]))
+        if d["monos"][i] == 1 and diff < -eps or d["monos"][i] == -1 and diff > eps:
           fail = "output of unit %d not monotone in input %d (monotonicity %d): %r -> %r" % (
               u, i, d["monos"][i], outs[0][u], o[u])
   bs = clist(["(%s, %s)" % (copt(l), copt(h)) for l, h in zip(d["lo"], d["hi"])])
   bias = d["bias"] if d["bias"] is not None else [0.0] * units
-  coq = "mk %s %s %s %s %s %s" % (cnat(units), cqm(d["K"]), cql(bias), bs,
-                                   clist([cqm(p) for p in d["pts"]]), cqm(outs))
+  coq = wrap_tol(d, "mk %s %s %s %s %s %s" % (cnat(units), cqm(d["K"]), cql(bias), bs,
+                                              clist([cqm(p) for p in d["pts"]]), cqm(outs)))
   clips = any((l is not None and r[i] < l) or (h is not None and r[i] > h)
               for p in d["pts"] for r in p for i, (l, h) in enumerate(zip(d["lo"], d["hi"])))
-  klass = "n%d_u%d_%s%s%s" % (min(n, 3), units, "clip" if clips else "noclip",
-                              "" if d["bias"] is not None else "_nobias", form_class(d))
+  klass = "n%d_u%d_%s%s%s%s" % (min(n, 3), units, "clip" if clips else "noclip",
+                                "" if d["bias"] is not None else "_nobias", form_class(d), "_f32" if is_f32(d) else "")
   return Case(d, coq=coq, pred_fail=fail, nontrivial=(n >= 2 or clips), klass=klass,
               info={"impl_outputs": outs})
